@@ -290,6 +290,21 @@ class Engine:
 
     # ------------------------------------------------------------ resolution
     def resolve_fn(self, callee):
+        if callee.startswith("{closure@"):
+            for mf in self.mirs:
+                idx = getattr(mf, "_closure_index", None)
+                if idx is None:
+                    idx = {}
+                    for nm, lst in mf.items.items():
+                        if "{closure#" in nm:
+                            for k, ln in lst:
+                                m = re.search(r"\(_1: &?(?:mut )?(\{closure@[^}]*\})", mf.lines[ln])
+                                if m:
+                                    idx[m.group(1)] = ln
+                    mf._closure_index = idx
+                if callee in idx:
+                    return mf.parse_item(idx[callee])
+            raise Unsupported("cannot resolve closure %r" % callee)
         name = strip_generics(callee)
         # `<T as Trait>::method` -> method with hint T
         m = re.match(r"^<(.*) as (.*)>::(\w+)$", name)
@@ -312,6 +327,8 @@ class Engine:
 
     # ------------------------------------------------------------ memory
     def read_root(self, st, root):
+        if isinstance(root, tuple) and root and root[0] == "const":
+            return self._const_mem[root]
         if root not in st.mem:
             raise Unsupported("read of uninitialised %r" % (root,))
         return st.mem[root]
@@ -507,10 +524,49 @@ class Engine:
             return StrV(_unescape(t[1:-1]))
         if t.startswith('b"'):
             return Ref(("lit", t), ())
+        m = re.match(r"^\{alloc(\d+): (.*)\}$", t)
+        if m:
+            return self.eval_alloc(st, frame, int(m.group(1)), m.group(2))
         m = re.match(r"^(.*)::promoted\[(\d+)\]$", t)
         if m or re.match(r"^[A-Za-z_<]", t):
             return self.eval_named_const(st, frame, t, want_ty)
         raise Unsupported("constant %r" % t)
+
+    def eval_alloc(self, st, frame, n, ty):
+        """`const {allocN: &T}` where the dump describes allocN as `(static: NAME ...)` after the function."""
+        key = ("alloc", frame.fn.name, n)
+        if key in self._const_cache:
+            return self._const_cache[key]
+        for mf in self.mirs:
+            if frame.fn.line < len(mf.lines) and frame.fn.name in mf.lines[frame.fn.line]:
+                pat = "alloc%d (static: " % n
+                for i in range(frame.fn.line, min(len(mf.lines), frame.fn.line + 400000)):
+                    ln = mf.lines[i]
+                    if ln.startswith(pat):
+                        name = ln[len(pat):].split(",")[0].split(")")[0].strip()
+                        inner = self.eval_named_const(st, frame, name, None)
+                        self._const_mem = getattr(self, "_const_mem", {})
+                        cell = ("const", "alloc:" + name, "cell")
+                        self._const_mem[cell] = inner
+                        v = Ref(cell, ())
+                        self._const_cache[key] = v
+                        return v
+                    if ln.startswith("fn ") and i > frame.fn.line:
+                        # allocations are printed right after the function that uses them
+                        pass
+        raise Unsupported("allocation alloc%d of %s is not a reference to a static" % (n, frame.fn.name))
+
+    def call_pure(self, st, fn, args):
+        """Run `fn(args)` to completion on a fork of `st` (shared memory snapshot) and return its PathResults."""
+        s2 = st.fork()
+        s2.frames = []
+        nf = Frame(fn, s2.uid)
+        s2.uid += 1
+        for (a, _), v in zip(fn.args, args):
+            s2.mem[(nf.uid, a)] = v
+        s2.frames.append(nf)
+        st.uid = s2.uid + 64      # keep frame ids of later sub-runs distinct
+        return self.run_state(s2)
 
     def eval_named_const(self, st, frame, t, want_ty):
         key = t
@@ -612,6 +668,11 @@ class Engine:
         if k == "use":
             return self.eval_operand(st, frame, rv[1])
         if k in ("ref", "addr"):
+            local, proj = rv[2]
+            if proj and proj[-1] == ("deref",):
+                base = self.read_place(st, frame, (local, proj[:-1]))
+                if isinstance(base, (StrV, Ref)):
+                    return base          # reborrow
             root, path = self.resolve_place(st, frame, rv[2])
             return Ref(root, path, rv[1])
         if k == "binop":
@@ -1018,6 +1079,32 @@ class Engine:
         """out: value | Panic(info) | Fork([(cond, value|Panic)]) | Inline(fn, args)"""
         if isinstance(out, Inline):
             return self.push_frame(st, fr, out.fn, out.args, dest, ret_bb)
+        if isinstance(out, FirstMatch):
+            import time
+            sol = z3.Solver()
+            for c in st.pc:
+                sol.add(c)
+            negs = []
+            t0 = time.time()
+            for c, v in out.alts + [(z3.BoolVal(True), out.default)]:
+                r = sol.check(c)
+                self.stats.solver_calls += 1
+                if r == z3.unknown:
+                    raise Unsupported("solver returned unknown")
+                if r == z3.sat:
+                    s2 = st.fork()
+                    s2.pc.extend(negs)
+                    if not z3.is_true(c):
+                        s2.pc.append(c)
+                    rr = self._complete(s2, s2.frames[-1], dest, ret_bb, v, callee)
+                    work.append(_Done(rr) if rr is not None else s2)
+                else:
+                    self.stats.pruned += 1
+                nc = z3.Not(c)
+                sol.add(nc)
+                negs.append(nc)
+            self.stats.solver_time += time.time() - t0
+            return SPLIT
         if isinstance(out, Fork):
             live = []
             for c, v in out.alts:
@@ -1068,6 +1155,14 @@ class Panic:
 class Fork:
     def __init__(self, alts):
         self.alts = alts
+
+
+class FirstMatch:
+    """alts: [(cond_i, value_i)] + default: the value of the first i whose condition holds, else `default`.
+    Feasibility of each alternative is decided incrementally (one solver, conditions negated as we go)."""
+
+    def __init__(self, alts, default):
+        self.alts, self.default = alts, default
 
 
 class Inline:
